@@ -54,6 +54,10 @@ pub struct LockStep {
     /// All: every boundary is compared (C01). Int: only boundaries that follow an interrupt entry
     /// or RETI (C04; other differences are C01's business and resynchronise silently). Off: never.
     pub compare: Compare,
+    /// lenient: disagreements about halts / interrupt sampling between SUT and reference are some
+    /// other property's business (C01, C04, C05): resynchronise instead of reporting. Only the
+    /// oracles the check is about stay armed (cycle cost, completion, torn writes, reset state).
+    pub lenient: bool,
     cost_valid: bool,
     resync_next: bool,
     pub last: Option<StepInfo>,
@@ -114,6 +118,7 @@ impl LockStep {
             check_cost: true,
             compare_board: false,
             compare: Compare::All,
+            lenient: false,
             cost_valid: true,
             resync_next: false,
             last: None,
@@ -533,6 +538,30 @@ impl LockStep {
 
     /// One `trigger_key_clock` on the SUT (one edge in Real mode, a burst in Assembly mode).
     pub fn tick(&mut self) -> Result<Event, Violation> {
+        match self.tick_strict() {
+            Err(v) if self.lenient && matches!(v.oracle.as_str(), "halt-missed" | "int-sampling" | "press-enable" | "spurious-halt" | "halt-kind" | "halt-reg" | "arch-state") => {
+                // not this check's business: follow the SUT
+                self.presses.clear();
+                self.resync();
+                self.resync_next = false;
+                self.rf.pending = Pending::Insn;
+                let io = io_snapshot(&self.sut);
+                self.rf.prefetch(&io);
+                self.hint = io;
+                self.last_b = self.edge;
+                self.cost_valid = false;
+                self.prev_done = self.sut.is_instruction_done();
+                if self.sut.state() != State::Running {
+                    self.ended = Some(Ended::Halted);
+                    return Ok(Event::Halt);
+                }
+                Ok(Event::Boundary)
+            }
+            r => r,
+        }
+    }
+
+    fn tick_strict(&mut self) -> Result<Event, Violation> {
         if self.ended.is_some() {
             // halted or hung: edges change nothing the reference models; still clock the SUT
             self.sut.trigger_key_clock();
